@@ -3,7 +3,7 @@
    helpers (prepare, fill, commit; forward and reverse; typed and dyn) are modelled and proved;
    the collection layer on top (growth policy, iterator size hints) is covered by C08's model. *)
 From Coq Require Import ZArith List.
-From BS Require Import Word BumpSpec ChunkSpec Arena ArenaInv ArenaExt.
+From BS Require Import Word BumpSpec ChunkSpec Arena ArenaInv ArenaExt ArenaInv2.
 Import ListNotations.
 Open Scope Z_scope.
 
@@ -50,7 +50,23 @@ Theorem C15_failed_growth_keeps_current_chunk :
   cur s1 = Cur i /\ (forall k, (k <= i)%nat -> nth_error (chunks s1) k = nth_error (chunks s) k).
 Proof. exact failed_prepare_keeps_current. Qed.
 
+(* the arena invariant (every live block valid, aligned, disjoint; position aligned and in range)
+   is preserved by prepare and by commit, and the committed slice becomes a live block *)
+Theorem C15_prepare_preserves_invariant :
+  forall c s0 h es ea cap rev r,
+  cfg_ok c -> inv c s0 -> resp_ok c s0 (es * cap) ea r ->
+  inv c (fst (step c s0 (OPrepare h es ea cap rev) r)).
+Proof. exact step_inv_prepare. Qed.
+
+Theorem C15_commit_preserves_invariant :
+  forall c s0 h es ea ptr len cap rev dyn r,
+  cfg_ok c -> inv c s0 -> commit_ok c s0 es ea ptr len cap rev ->
+  inv c (fst (step c s0 (OCommit h es ea ptr len cap rev dyn) r)).
+Proof. exact step_inv_commit. Qed.
+
 Print Assumptions C15_prepare_keeps_positions.
+Print Assumptions C15_prepare_preserves_invariant.
+Print Assumptions C15_commit_preserves_invariant.
 Print Assumptions C15_failed_growth_keeps_current_chunk.
 Print Assumptions C15_commit_up_advance.
 Print Assumptions C15_commit_down_contents.
